@@ -208,3 +208,58 @@ pub proof fn lemma_root(m: Map<PathS, Ignore>, p: PathS, s: PathS, k: PathS, c: 
         }
     }
 }
+
+// ---- multi-path events (IgnoreFilterer::check_event) ----
+// The property text defines "the loaded ignore files reject it" for one path; for an event with several paths the filterer folds the per-path
+// verdicts from left to right: an in-scope ignore rejects, a negated (whitelist) match re-admits, anything else keeps the verdict so far.
+// This fold is TAKEN FROM THE CODE AND ITS DOC COMMENT ("Ok(false) if the event is ignored according to the ignore files"); what the
+// property fixes are its consequences: no path ignored => passes; without negated matches, rejected iff some path is ignored.
+pub open spec fn tag_is_dir(t: (PathS, Option<FileType>)) -> bool { t.1 == Some(FileType::Dir) }
+pub open spec fn fold_pass(tags: Seq<(PathS, Option<FileType>)>, ws: Seq<Seq<Asked>>, n: int) -> bool decreases n {
+    if n <= 0 { true } else {
+        let v = verdict_of(ws[n - 1], tags[n - 1].0, tag_is_dir(tags[n - 1]));
+        if ignored(v, tags[n - 1].0) { false } else if v is Whitelist { true } else { fold_pass(tags, ws, n - 1) }
+    }
+}
+// one path's walk is a complete, correct walk over the files stored in the filter
+pub open spec fn full_walk(f: &IgnoreFilter, p: PathS, d: bool, c: Seq<Asked>) -> bool {
+    walk_ok(p, d, c, verdict_of(c, p, d))
+    && (forall|i: int| 0 <= i < c.len() ==> f.ignores.m@.contains_key((#[trigger] c[i]).g.root) && f.ignores.m@[c[i].g.root].gitignore == c[i].g && c[i].parents == path_anc(f.origin, p))
+    && (verdict_of(c, p, d) is None ==> covered_all(f.ignores.m@, p, c))
+}
+pub open spec fn event_verdict_ok(f: &IgnoreFilter, tags: Seq<(PathS, Option<FileType>)>, ws: Seq<Seq<Asked>>, pass: bool) -> bool {
+    ws.len() == tags.len()
+    && (forall|i: int| 0 <= i < tags.len() ==> full_walk(f, (#[trigger] tags[i]).0, tag_is_dir(tags[i]), ws[i]))
+    && pass == fold_pass(tags, ws, tags.len() as int)
+}
+pub open spec fn event_passes_by_fold(f: &IgnoreFilter, tags: Seq<(PathS, Option<FileType>)>, pass: bool) -> bool {
+    exists|ws: Seq<Seq<Asked>>| #[trigger] event_verdict_ok(f, tags, ws, pass)
+}
+// consequences the property states
+pub proof fn lemma_no_path_ignored_passes(tags: Seq<(PathS, Option<FileType>)>, ws: Seq<Seq<Asked>>, n: int)
+    requires 0 <= n <= tags.len(), forall|i: int| 0 <= i < n ==> !ignored(verdict_of(ws[i], (#[trigger] tags[i]).0, tag_is_dir(tags[i])), tags[i].0),
+    ensures fold_pass(tags, ws, n),
+    decreases n,
+{ if n > 0 { lemma_no_path_ignored_passes(tags, ws, n - 1); } }
+pub proof fn lemma_without_negations_rejected_iff_some_path_ignored(tags: Seq<(PathS, Option<FileType>)>, ws: Seq<Seq<Asked>>, n: int)
+    requires 0 <= n <= tags.len(), forall|i: int| 0 <= i < n ==> !(verdict_of(ws[i], (#[trigger] tags[i]).0, tag_is_dir(tags[i])) is Whitelist),
+    ensures fold_pass(tags, ws, n) == !(exists|i: int| 0 <= i < n && ignored(verdict_of(ws[i], (#[trigger] tags[i]).0, tag_is_dir(tags[i])), tags[i].0)),
+    decreases n,
+{
+    if n > 0 {
+        lemma_without_negations_rejected_iff_some_path_ignored(tags, ws, n - 1);
+        let last = ignored(verdict_of(ws[n - 1], tags[n - 1].0, tag_is_dir(tags[n - 1])), tags[n - 1].0);
+        if last { assert(0 <= n - 1 < n && ignored(verdict_of(ws[n - 1], tags[n - 1].0, tag_is_dir(tags[n - 1])), tags[n - 1].0)); }
+        else {
+            if exists|i: int| 0 <= i < n && ignored(verdict_of(ws[i], (#[trigger] tags[i]).0, tag_is_dir(tags[i])), tags[i].0) {
+                let i = choose|i: int| 0 <= i < n && ignored(verdict_of(ws[i], (#[trigger] tags[i]).0, tag_is_dir(tags[i])), tags[i].0);
+                assert(i < n - 1);
+            }
+        }
+    }
+}
+pub proof fn lemma_fold_prefix(tags: Seq<(PathS, Option<FileType>)>, a: Seq<Seq<Asked>>, b: Seq<Seq<Asked>>, n: int)
+    requires 0 <= n <= a.len(), n <= b.len(), forall|i: int| 0 <= i < n ==> #[trigger] a[i] == b[i],
+    ensures fold_pass(tags, a, n) == fold_pass(tags, b, n),
+    decreases n,
+{ if n > 0 { lemma_fold_prefix(tags, a, b, n - 1); } }
